@@ -3,6 +3,7 @@ package c19
 import (
 	"fmt"
 	"os"
+	"path/filepath"
 	"strings"
 	"testing"
 
@@ -19,7 +20,7 @@ type UnavailCase struct {
 	Cmd   string   `json:"cmd"` // validate | lint | format | parse
 	Flags []string `json:"flags"`
 	Files []File   `json:"files"`
-	// Bad: "" (nothing unavailable) | missing_file | missing_dir | bad_pattern
+	// Bad: "" (nothing unavailable) | missing_file | missing_dir | bad_pattern | rejected_after_stdin_marker
 	Bad       string `json:"bad"`
 	BadFirst  bool   `json:"bad_first"`
 	Recursive bool   `json:"recursive"` // the files are given as "-r ."
@@ -50,6 +51,12 @@ func oracleUnavail(c UnavailCase) error {
 		bad = "no-such-dir"
 	case "bad_pattern":
 		args = append(args, "--pattern", "[")
+	case "rejected_after_stdin_marker":
+		// "-" first, then a file the library rejects: the file is a given input, it counts
+		if err := os.WriteFile(filepath.Join(dir, "rejected.sql"), []byte("SELECT FROM WHERE"), 0o644); err != nil {
+			return fmt.Errorf("HARNESS: %v", err)
+		}
+		inputs = append([]string{"-"}, append(inputs, "rejected.sql")...)
 	}
 	if bad != "" {
 		if c.BadFirst {
@@ -59,7 +66,11 @@ func oracleUnavail(c UnavailCase) error {
 		}
 	}
 	args = append(args, inputs...)
-	r, err := runCmd(dir, "", binPath, args...)
+	stdin := ""
+	if c.Bad == "rejected_after_stdin_marker" {
+		stdin = "SELECT 1\n"
+	}
+	r, err := runCmd(dir, stdin, binPath, args...)
 	if err != nil {
 		return fmt.Errorf("HARNESS: %v", err)
 	}
@@ -69,7 +80,11 @@ func oracleUnavail(c UnavailCase) error {
 	}
 	if c.Bad != "" {
 		if r.code == 0 {
-			return fmt.Errorf("%s exits with status 0 although one of its inputs cannot be read\n stdout: %s\n stderr: %s", desc, clip(r.stdout), clip(r.stderr))
+			why := "one of its inputs cannot be read"
+			if c.Bad == "rejected_after_stdin_marker" {
+				why = "the library rejects rejected.sql (SELECT FROM WHERE), which is one of the inputs given"
+			}
+			return fmt.Errorf("%s exits with status 0 although %s\n stdout: %s\n stderr: %s", desc, why, clip(r.stdout), clip(r.stderr))
 		}
 		return nil
 	}
@@ -109,7 +124,7 @@ func oracleUnavail(c UnavailCase) error {
 var unavailCheck = hx.NewCheck("cli_unavailable_inputs", oracleUnavail)
 
 func TestCLIUnavailableInputs(t *testing.T) {
-	hx.Rule("cli_unavailable_inputs", "the real binary on 1-3 generated files given by name or through their directory (validate -r / lint -r), alone or together with one input that cannot be read (a missing file, a missing directory, a malformed --pattern), before or after the readable ones, x validate / lint (--fail-on-warn) / format (--check) / parse: with an unreadable input the exit status is non-zero, otherwise it is the verdict the files give one by one; no file is modified; non-trivial = an unreadable input next to readable ones, or a directory walk; distinct = command + flags + kind + order")
+	hx.Rule("cli_unavailable_inputs", "the real binary on 1-3 generated files given by name or through their directory (validate -r / lint -r), alone or together with one input that cannot be read (a missing file, a missing directory, a malformed --pattern, a rejected file after the stdin marker \"-\"), before or after the readable ones, x validate / lint (--fail-on-warn) / format (--check) / parse: with an unreadable input the exit status is non-zero, otherwise it is the verdict the files give one by one; no file is modified; non-trivial = an unreadable input next to readable ones, or a directory walk; distinct = command + flags + kind + order")
 	if _, err := build(); err != nil {
 		t.Fatalf("HARNESS: %v", err)
 	}
@@ -148,6 +163,9 @@ func TestCLIUnavailableInputs(t *testing.T) {
 			c.Files, vec = c.Files[:1], vec[:1]
 		}
 		kinds := []string{"", "missing_file"}
+		if !c.Recursive && (c.Cmd == "validate" || c.Cmd == "format") {
+			kinds = append(kinds, "rejected_after_stdin_marker")
+		}
 		if c.Recursive {
 			kinds = []string{"", "missing_file", "missing_dir", "bad_pattern"}
 		}
